@@ -54,7 +54,7 @@ def routines_for(obid):
 def search(prop, obid, f, info):
     tried = []
     for r in routines_for(obid):
-        d = run_routine(r)
+        d = run_routine(r.split()[0], r.split()[1:])
         tried.append(r)
         if d.get("found"):
             d["replay_cmd"] = "%s %s" % (BIN, d.get("rerun", "replay " + r).split(" ", 1)[1])
